@@ -21,7 +21,9 @@ import (
 	"runtime"
 	"strconv"
 	"strings"
+	"syscall"
 	"time"
+	"unsafe"
 
 	"github.com/goplus/llgo/cmd/internal/compilerhash"
 	"github.com/goplus/llgo/internal/build"
@@ -91,6 +93,7 @@ type vfile struct {
 	mtime         int64
 	hasOverlay    bool
 	overlay       string
+	link          bool // optional fifth field "L": `path` is a symbolic link, content and mtime belong to its target
 }
 
 func unfiles(s string) ([]vfile, error) {
@@ -120,9 +123,28 @@ func unfiles(s string) ([]vfile, error) {
 				return nil, err
 			}
 		}
+		vf.link = len(p) >= 5 && p[4] == "L"
 		out = append(out, vf)
 	}
 	return out, nil
+}
+
+// linkMtime is the (fixed) mtime of every symbolic link the harness creates: a link is not touched when its target is edited
+const linkMtime = 1_600_000_000
+
+// lutimes sets atime and mtime of the link itself (utimensat with AT_SYMLINK_NOFOLLOW; package os has no such call)
+func lutimes(path string, sec int64) error {
+	p, err := syscall.BytePtrFromString(path)
+	if err != nil {
+		return err
+	}
+	ts := [2]syscall.Timespec{{Sec: sec}, {Sec: sec}}
+	const atSymlinkNofollow = 0x100
+	fd := -100 // AT_FDCWD
+	if _, _, e := syscall.Syscall6(syscall.SYS_UTIMENSAT, uintptr(fd), uintptr(unsafe.Pointer(p)), uintptr(unsafe.Pointer(&ts[0])), atSymlinkNofollow, 0, 0); e != 0 {
+		return e
+	}
+	return nil
 }
 
 var levels = []optlevel.Level{optlevel.O0, optlevel.O1, optlevel.O2, optlevel.O3, optlevel.Os, optlevel.Oz}
@@ -284,11 +306,30 @@ func handleKey(root string, n int, tokens []string) string {
 			return "bad-op path"
 		}
 		os.MkdirAll(filepath.Dir(f.path), 0o755)
-		if err := os.WriteFile(f.path, []byte(f.content), 0o644); err != nil {
+		if f.link {
+			// the content lives in _lnk/<path>; <path> is a relative symbolic link to it (same link text, size and
+			// mtime of the link itself in every request: only the target differs between two requests)
+			target := filepath.Join("_lnk", f.path)
+			os.MkdirAll(filepath.Dir(target), 0o755)
+			if err := os.WriteFile(target, []byte(f.content), 0o644); err != nil {
+				return "err " + err.Error()
+			}
+			rel, err := filepath.Rel(filepath.Dir(f.path), target)
+			if err != nil {
+				return "err " + err.Error()
+			}
+			os.Remove(f.path)
+			if err := os.Symlink(rel, f.path); err != nil {
+				return "err " + err.Error()
+			}
+			if err := lutimes(f.path, linkMtime); err != nil {
+				return "err lutimes " + err.Error()
+			}
+		} else if err := os.WriteFile(f.path, []byte(f.content), 0o644); err != nil {
 			return "err " + err.Error()
 		}
 		t := time.Unix(0, f.mtime)
-		if err := os.Chtimes(f.path, t, t); err != nil {
+		if err := os.Chtimes(f.path, t, t); err != nil { // follows the link: the target's mtime
 			return "err " + err.Error()
 		}
 	}
